@@ -16,6 +16,18 @@ var oddColNames = []string{"rowid", "oid", "_rowid_", "é", "éa", "ünï", "É"
 
 var collations = []string{"BINARY", "NOCASE", "RTRIM", "nocase", "rtrim", "binary"}
 
+// AppCollation lets the grammar use "mycoll", a collation the writer registers through
+// sqlite3_create_collation (py/sqlite_worker.py). Only checks whose oracle does not need to
+// order by it switch this on (C05).
+var AppCollation bool
+
+func drawCollation(s *sim.Src) string {
+	if AppCollation && s.Chance(1, 4, "appcoll") {
+		return "mycoll"
+	}
+	return collations[s.Draw(len(collations), "coll")]
+}
+
 // Ident renders a name in a drawn quoting style (style 0 = bare when possible).
 func Ident(s *sim.Src, name string, fancy int) string {
 	return identStyled(s, name, fancy)
@@ -231,7 +243,7 @@ func CreateTable(s *sim.Src, name string, fancy int, wantWithoutRowid bool, othe
 			cons = append(cons, "NULL")
 		}
 		if s.Chance(1, 3, "collate") {
-			cons = append(cons, "COLLATE "+collations[s.Draw(len(collations), "coll")])
+			cons = append(cons, "COLLATE "+drawCollation(s))
 		}
 		if s.Chance(1, 5, "default") {
 			cons = append(cons, "DEFAULT "+literal(s, exotic))
@@ -283,9 +295,9 @@ func CreateTable(s *sim.Src, name string, fancy int, wantWithoutRowid bool, othe
 			seen[k] = true
 			p := IdentRef(s, cols[k].name, fancy)
 			if dup && s.Chance(3, 4, "dupcoll") {
-				p += " COLLATE " + collations[s.Draw(len(collations), "coll")]
+				p += " COLLATE " + drawCollation(s)
 			} else if s.Chance(1, 4, "iccoll") {
-				p += " COLLATE " + collations[s.Draw(len(collations), "coll")]
+				p += " COLLATE " + drawCollation(s)
 			}
 			switch s.Weighted([]int{5, 1, 3}, "icdir") {
 			case 1:
@@ -310,11 +322,11 @@ func CreateTable(s *sim.Src, name string, fancy int, wantWithoutRowid bool, othe
 			// the same column twice under different collations, any position: SQLite keeps
 			// both key columns (and stores the column twice in a WITHOUT ROWID table)
 			k := s.Draw(len(cols), "repcol")
-			c1 := collations[s.Draw(len(collations), "coll")]
+			c1 := drawCollation(s)
 			parts := []string{IdentRef(s, cols[k].name, fancy) + " COLLATE " + c1}
 			second := IdentRef(s, cols[k].name, fancy)
 			if s.Chance(1, 2, "repcoll2") {
-				second += " COLLATE " + collations[s.Draw(len(collations), "coll")]
+				second += " COLLATE " + drawCollation(s)
 			}
 			if s.Chance(1, 3, "repdesc") {
 				second += " DESC"
@@ -419,7 +431,7 @@ func CreateIndex(s *sim.Src, name, table string, cols []string, fancy int, allow
 			p = IdentRef(s, cols[k], fancy)
 		}
 		if s.Chance(1, 3, "ixcoll") {
-			p += " COLLATE " + collations[s.Draw(len(collations), "coll")]
+			p += " COLLATE " + drawCollation(s)
 		}
 		switch s.Weighted([]int{5, 1, 3}, "ixdir") {
 		case 1:
